@@ -17,6 +17,7 @@ import tidytcells as tt  # noqa: E402
 logging.disable(logging.CRITICAL)
 
 PROPERTY = "C18"
+QUICK_SCALE = 3
 RULE = ("predicates: a recursive strategy over None, NaN, +-inf, ints, floats, bools, complex, Fraction, Decimal, bytes, full-Unicode "
         "text, amino-acid text (valid and near-valid CDR3s: lower case, inner space, X, wrong ends, empty), lists / tuples / sets "
         "/ frozensets / dicts of these (empty containers included), NumPy scalars / arrays and pandas Series: no exception, "
